@@ -85,15 +85,19 @@ CHECKS = {
     ),
     "C09": dict(
         category="model_checking",
-        technique="population / draw / likelihood-call events of real runs validated by TLC against "
-                  "TraceNestedSampler.tla; NestedSampler.tla model checked",
-        text="Structural part of the property: every pool of every real run is checked for bounds, prior and "
-             "likelihood equal to the model's, size, each index handed out once, rejected draws unacceptable, and the "
-             "likelihood never being called outside the support. The distributional clause (pool ~ prior restricted to "
-             "the contour) is reduced to these facts and otherwise assumed.",
+        technique="Pool.tla (population by rejection sampling, three modes) model checked by TLC; population batches "
+                  "(guarded hooks: weights, uniforms, acceptance mask), pools, draws and likelihood calls of real runs "
+                  "validated by TLC against TraceNestedSampler.tla",
+        text="Every pool of every real run is checked for bounds, prior and likelihood equal to the model's, size, each "
+             "index handed out once, rejected draws unacceptable, the latent contour, and the likelihood never being "
+             "called outside the support; through the guarded hooks every rejection-sampling batch must satisfy "
+             "accept = (log w - max log w > log u) and the pool must be the first N accepted candidates in order "
+             "(Pool.tla). The distributional clause (pool ~ prior restricted to the contour) is thereby reduced to the "
+             "exactness of the acceptance rule given the candidates' density, which is assumed (C08).",
         design_ref="DESIGN.md 4 C09",
-        note=NS_NOTE + " Not covered: statistical indistinguishability from brute-force rejection sampling; latent "
-             "contour radius check.",
+        note=NS_NOTE + " Not covered: statistical indistinguishability from brute-force rejection sampling (the "
+             "candidates' density q is assumed); the contour clause is checked only where the forward pass is a "
+             "point-wise inverse (plain FlowProposal, no auxiliary parameters, no boundary inversion).",
     ),
     "C12": dict(
         category="model_checking",
@@ -276,7 +280,7 @@ def build():
             "guard": "NESSAI_VERIF",
             "enable": "checks export NESSAI_VERIF=1 before importing nessai from /repo (editable install in /venv)",
             "baseline_off_cmd": "cd /repo && env -u NESSAI_VERIF /venv/bin/python -m pytest -ra -q -p no:cacheprovider --timeout=900 --continue-on-collection-errors",
-            "source_commits": [],
+            "source_commits": ["ae66aba"],
             "add_only": True,
         },
         "engines": [
